@@ -78,7 +78,7 @@ impl Prop for C19 {
     }
     fn runs(&self, tier: Tier) -> u64 {
         match tier {
-            Tier::Quick => 1200,
+            Tier::Quick => 1600,
             Tier::Thorough => 15000,
         }
     }
